@@ -13,12 +13,13 @@ MODULES = {
     'C18': 'c18_blobbook', 'C19': 'c19_diskclean', 'C20': 'c20_dewies',
     # growth beyond the listed properties (statements in growth.jsonl; not registered in MANIFEST.json)
     'G01': 'g01_headersync', 'G02': 'g02_dhtpeer', 'G03': 'g03_reflector', 'G04': 'g04_downloader',
-    'G05': 'g05_storage', 'G06': 'g06_walletmerge',
+    'G05': 'g05_storage', 'G06': 'g06_walletmerge', 'G07': 'g07_rangestream', 'G08': 'g08_components',
+    'G09': 'g09_lrucache',
 }
 
 if __name__ == '__main__':
     if len(sys.argv) < 2 or sys.argv[1] not in MODULES:
-        print('usage: check <C01..C20|G01..G06> [--tier quick|thorough] [--replay PATH] [--seed N]')
+        print('usage: check <C01..C20|G01..G09> [--tier quick|thorough] [--replay PATH] [--seed N]')
         sys.exit(2)
     prop = sys.argv[1]
     try:
